@@ -22,10 +22,11 @@ RULE += (" Also: items whose comparison fails with ValueError/KeyError/Attribute
 RULE += (' Also: keys undefined for some items (neg / half over mixed raw items) or failing for every item, one-item inputs, for min/max/sorted/nlargest/nsmallest.')
 RULE += (' Also: dict elements that are unsized one-shot iterators / generators.')
 RULE += (' Also: values ordered by < alone (no __eq__): ties neither smaller nor equal.')
+RULE += (' Also: tuple / list subclass instances as inputs; exact result types compared.')
 ASSUMPTIONS = ["builtins/functools/heapq of the running interpreter (3.12) are the reference, incl. compensated float sum"]
 EXHAUSTIVE = {"quick": False, "thorough": False}
 N_RANDOM = {"quick": 150000, "thorough": 8000000}
-FLAVS = ["list", "sync_iter", "async_class", "async_gen", "tuple", "sync_gen", "getitem_seq", "async_iterable", "sync_iterable"]
+FLAVS = ["list", "sync_iter", "async_class", "async_gen", "tuple", "sync_gen", "getitem_seq", "async_iterable", "sync_iterable", "tuple_sub", "list_sub"]
 FNFL = ["def", "async_def", "callobj"]
 
 
@@ -110,6 +111,9 @@ def run_case(case, stats: Counter):
     st = tuple(sync.term[:2])
     at = tuple(asy.term[:2])
     head = f"{tool} {spec['params']} fns={spec.get('fns')} src={spec['srcs'][0]} flav={flav}"
+    if st == at and st[0] == "ret" and sync.rtype != asy.rtype:
+        viols.append({"key": f"{tool}/result-type",
+                      "msg": f"{head}: the result is a {asy.rtype}, the builtin's a {sync.rtype}"})
     if st != at:
         viols.append({"key": classify(spec, case, sync, asy, "result"),
                       "msg": f"{head}: stdlib {st} vs asyncstdlib {at}", "detail": {"expected": st, "got": at}})
